@@ -1001,6 +1001,8 @@ class Verifier(Calls):
                     self.exits += 1
                     rv = NONE if kind == 'next' else v
                     rv = self.coerce(s, rv, RT, fn, 'return value of %s' % c.key.split(':')[1])
+                    for e in c.lemmas:
+                        self.prove(s, self.eval_spec(s, e, s.frame, old=old, result=rv), 'lemma', fn, e)
                     for e in c.ensures:
                         g = self.eval_spec(s, e, s.frame, old=old, result=rv)
                         self.prove(s, g, 'post', fn, e)
